@@ -25,7 +25,7 @@ Proof.
         unfold Data in Hd; cbn in Hd; destruct Hd; discriminate.
     + unfold node_frame. clear Hd Htmo.
       destruct ht as [rst rfn rpc rret rit]. unfold fn_ok in Hhb; cbn in Hhb.
-      destruct Hhb as [[? _]|[? _]]; subst rfn; unfold thread_step in H; cbn in H;
+      destruct Hhb as [[? _]|[? [_ ?]]]; subst rfn; unfold thread_step in H; cbn in H;
         (destruct rst; try discriminate H); do 8 (try destruct rpc as [|rpc]); cbn in H; try discriminate H;
         unfold ch_close, ch_send, ch_cancel, ch_recv in H; inv_ok; repeat split; intros; congruence.
   - panic_script ht Hhb.
